@@ -1,4 +1,4 @@
-import ClaripyProofs.Lemmas.Solver.CompositeFoot
+import ClaripyProofs.Lemmas.Solver.CompositeCombine
 /-!
 Histories of `add` / `satisfiable()` on one CompositeFrontend: the partition invariant `CInv` is kept and every answer is the one
 the property statement demands for everything the user added (or an honest give-up of a child's backend).
@@ -15,8 +15,8 @@ def InScopeCP (R : Con → Prop) : Op → Prop
   | _ => False
 
 section
-variable (H : SolverHyps R RE E) (hC : CombineSpec R RE E)
-include H hC
+variable (H : SolverHyps R RE E)
+include H
 
 /-- one call: allowed answer (or honest give-up) and the invariant again -/
 theorem comp_step {U : List Con} {Us : List (List Con)} {s : CSt} (h : CInv R RE E U Us s) (op : Op) (hop : InScopeCP R op) :
@@ -27,7 +27,7 @@ theorem comp_step {U : List Con} {Us : List (List Con)} {s : CSt} (h : CInv R RE
     · have : cs = [] := by simpa using hemp
       subst this
       exact ⟨Or.inl trivial, Us, by simpa [compStep, usersAfter] using h⟩
-    · obtain ⟨added, Us', s', hrun, hinv⟩ := compAdd_spec H (childFoot H) hC h cs hop.1 hop.2
+    · obtain ⟨added, Us', s', hrun, hinv⟩ := compAdd_spec H (childFoot H) (combineSpec H (childFoot H)) h cs hop.1 hop.2
       have hstep : compStep E s (.add cs) = (.cons (added.map (·.id)), s') := by
         simp only [compStep, hemp, Bool.false_eq_true, ↓reduceIte, hrun, outOfC]
       rw [hstep]
@@ -49,7 +49,7 @@ theorem comp_step {U : List Con} {Us : List (List Con)} {s : CSt} (h : CInv R RE
     | error e => exact fun hs => ⟨Or.inr ⟨e, rfl, hs.1⟩, Us, hs.2⟩
   | _ => exact hop.elim
 
-omit H hC in
+omit H in
 theorem runComp_cons (s : CSt) (U : List Con) (op : Op) (rest : List Op) :
     runComp E s U (op :: rest) = (usersAfter U op, op, (compStep E s op).1) :: runComp E (compStep E s op).2 (usersAfter U op) rest := by
   cases op <;> rfl
@@ -60,7 +60,7 @@ theorem comp_hist : ∀ (hist : List Op) (s : CSt) (U : List Con) (Us : List (Li
   | [], _, _, _, _, _ => fun x hx => by cases hx
   | op :: rest, s, U, Us, h, hok => by
     intro x hx
-    obtain ⟨hj, Us', hinv⟩ := comp_step H hC h op (hok op (by simp))
+    obtain ⟨hj, Us', hinv⟩ := comp_step H h op (hok op (by simp))
     rw [runComp_cons] at hx
     rcases List.mem_cons.mp hx with rfl | hx
     · exact hj
@@ -73,7 +73,8 @@ end
 theorem cR_vars {c : Con} (hc : cR c) : ∀ v ∈ c.vars, v = 0 := by
   rcases hc with rfl | rfl | rfl | ⟨k, _, rfl⟩ <;> intro v hv <;> simp [cFalse, cCon, cEq, cBuild] at hv <;> exact hv
 
-/-- in the one-variable registry of `SolverConsistent.lean` no two children can own names, so `combine` is never reached -/
+/-- in the one-variable registry of `SolverConsistent.lean` no two children can own names, so `combine` is never reached
+(kept from the time `CombineSpec` was a hypothesis; it is a theorem now: `combineSpec`) -/
 theorem cCombineSpec : CombineSpec cR cRE cEnv := by
   intro U Us s h names j rest hne hnd hmem
   exfalso
